@@ -53,3 +53,26 @@ Definition distinct_weights (n : nat) (w : nat -> nat -> Z) : Prop :=
 Definition sole_minimax_arc (n : nat) (w : nat -> nat -> Z) (u v : nat) : Prop :=
   forall pi, path_from_to n u v pi -> NoDup pi -> pi <> [u; v] ->
     exists a b, arc_on pi a b /\ (w u v < w a b)%Z.
+
+(* ------------------------------------------------------------------ *)
+(* Total weight of a tree given by a parent map (integer weights).     *)
+
+(* f 0 + ... + f (n-1) *)
+Fixpoint zsum (f : nat -> Z) (n : nat) : Z :=
+  match n with
+  | 0 => 0%Z
+  | S k => (zsum f k + f k)%Z
+  end.
+
+(* weight of the arc (pred q, q); the root carries no arc *)
+Definition arc_weight (w : nat -> nat -> Z) (pred : nat -> option nat) (q : nat) : Z :=
+  match pred q with Some p => w p q | None => 0%Z end.
+
+Definition tree_weight (n : nat) (w : nat -> nat -> Z) (pred : nat -> option nat) : Z :=
+  zsum (arc_weight w pred) n.
+
+(* [pred] is a rooted spanning tree of the complete graph on 0..n-1: parents are nodes,
+   and following [pred] from any node reaches one common root [r] *)
+Definition spanning_parent_map (n : nat) (pred : nat -> option nat) : Prop :=
+  exists r, r < n /\ pred r = None /\
+    forall q, q < n -> root_of pred q r /\ forall p, pred q = Some p -> p < n.
